@@ -376,6 +376,10 @@ impl Indexable for ast::BangOperator {
 
                 if then_typ.can_be_casted_to(&ctx.symbol_map, &else_typ) {
                     Some(then_typ)
+                } else if else_typ.can_be_casted_to(&ctx.symbol_map, &then_typ) {
+                    Some(then_typ)
+                } else if let Some(common_typ) = then_typ.common_typ(&ctx.symbol_map, &else_typ) {
+                    Some(common_typ)
                 } else {
                     ctx.error(
                         else_range,
@@ -441,16 +445,22 @@ impl Indexable for ast::BangOperator {
                     return Some(Type::Unknown);
                 }
 
+                let mut list_type = list1_type;
                 for (range, typ) in value_types {
                     let Some(typ) = typ else {
                         continue;
                     };
-                    if !typ.can_be_casted_to(&ctx.symbol_map, &list1_type) {
-                        ctx.error(range, format!("expected {list1_type}, found {typ}"));
+                    if typ.can_be_casted_to(&ctx.symbol_map, &list_type) {
+                        continue;
+                    }
+                    // lists of different records (`[RegA]`, `[RegB]`) make a list of their class
+                    match list_type.common_typ(&ctx.symbol_map, &typ) {
+                        Some(common_typ) => list_type = common_typ,
+                        None => ctx.error(range, format!("expected {list_type}, found {typ}")),
                     }
                 }
 
-                Some(list1_type.clone())
+                Some(list_type)
             }
             SyntaxKind::XListFlatten => {
                 common::unexpect_type_annotation(ctx, self);
